@@ -461,6 +461,8 @@ type l2Env struct {
 	// startWait overrides awaitRebroadcast's 10 s wait for the round to start
 	// (0 = 10 s), for callers that already waited.
 	startWait time.Duration
+	// hold (co-subscriber family): lets the peers withhold cfilter answers.
+	hold *coHold
 }
 
 func l2Family(k int) string {
@@ -507,6 +509,12 @@ func L2Scenario(seed int64, k int, res *l2.Result) {
 	for i := 0; i < np; i++ {
 		p := w.AddPeer(e.tip)
 		p.OnMsg = e.rc.onMsg
+		if coIsFamily(fam) {
+			if e.hold == nil {
+				e.hold = &coHold{}
+			}
+			p.Mutate = e.hold.mutate
+		}
 		e.peers = append(e.peers, p.Addr)
 	}
 	e.bto = 2 * time.Second
